@@ -307,11 +307,12 @@ class Builder:
         )
 
     def seq_annotation(self, seq, c):
+        # users 7 and 8 occur nowhere else: a user referenced only from here must still be written
         return self.d.SequenceAnnotation(
             uuid=self.uid(), sequence=seq,
-            notes=[self.note(c, user_k=3)] if c.bit() else [],
+            notes=[self.note(c, user_k=8)] if c.bit() else [],
             tags=[self.tag(6)] if c.bit() else [],
-            created_by=self.user(4, c) if c.bit() else None,
+            created_by=self.user(7, c) if c.bit() else None,
             created_on=h.DT(self.atom()),
         )
 
